@@ -226,7 +226,7 @@ fn prop(c: &Case, ctx: &Ctx) -> PResult {
 pub fn property() -> Property {
     Property {
         id: "C04",
-        rule: "1..10 distinct relative paths (0..4 directories deep, ASCII, file and directory names from disjoint pools) each assigned one of {only-A, only-B, both-same, both-changed, both-changed-same-size, both with B empty, only-A empty, only-B empty}; sizes from {1,2,3,4,111..113,127..129,143..145,255,256,31999..32001} or random up to 8 KiB (400 KiB thorough); A, B and T = copy(A) materialised in a scratch directory; patch = ZiPatch::create(A, B) written outside the trees and applied to T with ZiPatch::apply. Oracle: A and B byte-identical before/after create; apply returns Ok; T's files = B's non-empty files with B's bytes (a path whose B version is empty may be absent or empty but must not keep A's bytes); nothing else remains. Non-trivial: at least one only-A, one only-B and one changed file; distinct by hash of the case.",
+        rule: "[rounds 8-9: directory names of which one is the front of another; sizes 48 000..120 000 (half-compressible content deflates to >= 32 000 bytes); half of the pairs with one old time stamp on every file] 1..10 distinct relative paths (0..4 directories deep, ASCII, file and directory names from disjoint pools) each assigned one of {only-A, only-B, both-same, both-changed, both-changed-same-size, both with B empty, only-A empty, only-B empty}; sizes from {1,2,3,4,111..113,127..129,143..145,255,256,31999..32001} or random up to 8 KiB (400 KiB thorough); A, B and T = copy(A) materialised in a scratch directory; patch = ZiPatch::create(A, B) written outside the trees and applied to T with ZiPatch::apply. Oracle: A and B byte-identical before/after create; apply returns Ok; T's files = B's non-empty files with B's bytes (a path whose B version is empty may be absent or empty but must not keep A's bytes); nothing else remains. Non-trivial: at least one only-A, one only-B and one changed file; distinct by hash of the case.",
         assumptions: &["no path is a file in one tree and a directory in the other", "an empty B-side file may be absent or empty in the result (create documents skipping empty files)"],
         pre: None,
         post: None,
